@@ -97,6 +97,9 @@ UNIT = {
         ob('set.iter.start', SET + 'iter_starts_at_zero', ['C14', 'C19'],
            'iter()/into_iter() start with cursor 0 on the set itself (with iter.step: by induction on the cursor the iteration '
            'yields exactly the members in ascending order, then None)', [['s', 'u32']]),
+        dict(ob('set.iter.collect_vec', SET + 'iter_collect_vec_small', ['C14', 'C19', 'C06'],
+                'collecting the iterator into a Vec yields exactly the members in ascending order without panicking (exercises next() with any size_hint)',
+                [], timeout=600), kind='bounded', bound='four concrete sets: {x0}, {x31}, {x30, x31}, {x5, x17}'),
         ob('set.from_iter', SET + 'from_iter_union', ['C19'],
            'FromIterator builds the union of the listed registers (3 symbolic elements + empty list)', [['a', 'u8'], ['b', 'u8'], ['c', 'u8']]),
         ob('register.all', SET + 'all_is_full', ['C14'], 'Register::all() is the full set x0-x31'),
